@@ -258,6 +258,11 @@ class C13(Check):
         "process time zone is UTC",
     ]
 
+    def extra_evidence(self, merged: Dict[str, Any]) -> Dict[str, Any]:
+        return {"individual_evaluations": merged["events"].get("get_task_delay", 0),
+                "note": "evaluations / distinct_nontrivial count batches (one batch = 400 random triples or one "
+                        "minute-exhaustive DST-day sweep); individual_evaluations counts get_task_delay() calls judged"}
+
     def cases(self, rng: random.Random, tier: str, shard: int, nshards: int) -> Iterator[Any]:
         i = 0
         while True:
@@ -415,6 +420,11 @@ class C14(Check):
     quick_time = 25.0
     thorough_time = 300.0
     assumptions = ["process time zone is UTC", "aware T compared by its own tzinfo.utcoffset (as the statement says: as instants)"]
+
+    def extra_evidence(self, merged: Dict[str, Any]) -> Dict[str, Any]:
+        return {"individual_evaluations": merged["events"].get("get_task_delay", 0),
+                "note": "evaluations / distinct_nontrivial count batches of 500 (now, T, zone) triples; "
+                        "individual_evaluations counts get_task_delay() calls judged"}
 
     def cases(self, rng: random.Random, tier: str, shard: int, nshards: int) -> Iterator[Any]:
         while True:
